@@ -1,39 +1,190 @@
-(** C04 — property theorems (statements only; proofs are in C04/Proofs.v).
-    Every statement is quantified over the regex oracle [re_match]. *)
+(** C04 — property theorems (statements only; proofs are in C04/Proofs.v and
+    Common/TrieProofs.v).  Every statement is quantified over the regex
+    oracles [re_ok] / [re_match].
+
+    Vocabulary.  [run hist] is the model router after the add/remove history
+    [hist]; [config hist] is the *configuration* reached by the same history:
+    the pre and post lists and, per hostname, the list of live tree rules —
+    nothing of the trie's shape or of the order in which hostnames arrived.
+    [plain_history]: every tree frontend of the history is on a hostname that
+    is non-empty, has no '/', and no leading '.' (exact and wild-card names).
+    Hostnames with /regex/ segments are the open known finding `regex-host`:
+    for them the statements are false ([regex_hosts_order_refuted]). *)
 From Coq Require Import List Arith NArith ZArith Lia.
-From SV Require Import Common.Trie C04.Model C04.Proofs.
+From SV Require Import Common.Trie Common.TrieProofs C04.Model C04.Proofs.
 Import ListNotations.
 
-(** Within one host leaf, [Router::lookup]'s selection loop returns a matching
-    rule of maximal rank (EQUALS > REGEX > longest PREFIX, then method-specific
-    > method-agnostic), or nothing when no rule matches — for every rule list,
-    path and method. *)
+(** ** 1. The trie *)
+
+(** lookup after insert *)
+Theorem trie_lookup_after_insert :
+  forall V re_ok re_match (t : trie V) k v t',
+    good_key k -> wf V t -> insert re_ok t k v = (t', IOk) -> getk V re_match t' k = Some (k, v).
+Proof. exact getk_insert_same. Qed.
+
+(** an absent key can always be inserted *)
+Theorem trie_insert_succeeds_when_absent :
+  forall V re_ok re_match (t : trie V) k v,
+    good_key k -> wf V t -> getk V re_match t k = None -> snd (insert re_ok t k v) = IOk.
+Proof. exact insert_ok_absent. Qed.
+
+(** other keys are unaffected by insert, remove and in-place modification *)
+Theorem trie_other_keys_unaffected :
+  forall V re_ok re_match (t : trie V) k k' v f,
+    good_key k -> good_key k' -> k <> k' -> wf V t ->
+    getk V re_match (fst (insert re_ok t k v)) k' = getk V re_match t k' /\
+    getk V re_match (fst (remove t k)) k' = getk V re_match t k' /\
+    getk V re_match (modify_mut re_match t k false f) k' = getk V re_match t k'.
+Proof.
+  intros. repeat split; [apply getk_insert_other|apply getk_remove_other|apply getk_modify_other]; assumption.
+Qed.
+
+(** remove undoes insert (the key is gone), and pruning keeps the structural
+    invariant: no stranded empty subtree can shadow anything *)
+Theorem trie_remove_removes :
+  forall V re_match (t : trie V) k,
+    good_key k -> wf V t -> getk V re_match (fst (remove t k)) k = None /\ wf V (fst (remove t k)).
+Proof. intros. split; [apply getk_remove_same|apply wf_remove_k]; assumption. Qed.
+
+(** lookup with wild-cards = the exact name, else the wild-card name that
+    replaces the left-most label by '*' — whatever else the trie contains *)
+Theorem trie_lookup_exact_then_wildcard :
+  forall V re_match (t : trie V) h,
+    good_key h -> label_of h <> [STAR] -> wf V t ->
+    lookup re_match t h true =
+    match getk V re_match t h with Some x => Some x | None => getk V re_match t (wild_of h) end.
+Proof. exact lookup_getk. Qed.
+
+(** ** 2. Selection within a host *)
+
 Theorem selection_is_documented_choice :
   forall re_match path m rules,
     is_best re_match path m rules (select_loop re_match rules path m (0, 0, 0)%nat None).
 Proof. exact select_is_best. Qed.
 
-(** The choice depends on the *set* of rules only (any two lists with the same
-    members give the same answer), provided no two matching rules of equal rank
-    decide differently. *)
 Theorem selection_order_independent :
   forall re_match path m rules rules',
     (forall e, In e rules <-> In e rules') -> no_ties re_match path m rules ->
     select_loop re_match rules path m (0, 0, 0)%nat None = select_loop re_match rules' path m (0, 0, 0)%nat None.
 Proof. exact select_order_independent. Qed.
 
-(** ... and the only ties possible between two distinct (path, method) rules
-    are between two REGEX rules, which the documentation leaves undefined. *)
 Theorem ties_only_between_regex_rules :
   forall re_match path m p1 m1 p2 m2 rk,
     rule_rank re_match p1 m1 path m = Some rk -> rule_rank re_match p2 m2 path m = Some rk ->
     (p1, m1) <> (p2, m2) -> p_kind p1 = PRegex /\ p_kind p2 = PRegex.
 Proof. exact tie_only_regex. Qed.
 
-(** non-vacuity: EQUALS beats an agnostic PREFIX of the full path, in both orders *)
+(** ** 3. The router, over all histories *)
+
+(** The router refines the configuration: after any plain history the pre and
+    post lists are the configuration's and the trie holds, under every
+    hostname, exactly the configuration's rule list. *)
+Theorem run_refines_configuration :
+  forall re_ok re_match hist, plain_history hist -> refines re_match (run re_ok re_match hist) (config re_ok hist).
+Proof. exact run_refines. Qed.
+
+(** lookup_refines_spec: for every history and every request, the route is the
+    documented choice on the configuration — first matching pre rule in order;
+    else, among the rules of the request's own hostname (or, when it has
+    none, of the wild-card hostname replacing its left-most label), a matching
+    rule of maximal rank (EQUALS > REGEX > longest PREFIX, method-specific >
+    agnostic); else the first matching post rule. *)
+Theorem lookup_refines_spec :
+  forall re_ok re_match hist h path m,
+    plain_history hist -> good_key h -> label_of h <> [STAR] ->
+    documented_choice re_match (config re_ok hist) h path m
+                      (route_lookup re_match (run re_ok re_match hist) h path m).
+Proof. exact lookup_refines_spec_lemma. Qed.
+
+(** order_independent: two histories that reach configurations with the same
+    pre/post lists and, per hostname, the same *set* of tree rules route every
+    request identically (no two equally-ranked matching rules: only two
+    regexes can tie, [ties_only_between_regex_rules]). *)
+Theorem order_independent :
+  forall re_ok re_match h1 h2 h path m,
+    plain_history h1 -> plain_history h2 -> good_key h -> label_of h <> [STAR] ->
+    s_pre (config re_ok h1) = s_pre (config re_ok h2) ->
+    s_post (config re_ok h1) = s_post (config re_ok h2) ->
+    (forall k, same_members (s_tree (config re_ok h1) k) (s_tree (config re_ok h2) k)) ->
+    no_ties re_match path m (a_rules (config re_ok h1) h) ->
+    route_lookup re_match (run re_ok re_match h1) h path m = route_lookup re_match (run re_ok re_match h2) h path m.
+Proof. exact order_independent_lemma. Qed.
+
+(** removed_never_routes: a removed tree frontend is not in the configuration
+    any more, and every answer is the decision of a matching rule that is in
+    the configuration. *)
+Theorem removed_never_routes :
+  forall re_ok hist fr p e,
+    f_pos fr = Tree -> parse_path re_ok (f_pkind fr) (f_pval fr) = Some p ->
+    In e (s_tree (config re_ok (hist ++ [ODel fr])) (f_host fr)) -> same_leaf p (f_method fr) e = false.
+Proof. exact removed_from_tree. Qed.
+
+Theorem answers_come_from_configuration :
+  forall re_ok re_match hist h path m r,
+    plain_history hist -> good_key h -> label_of h <> [STAR] ->
+    route_lookup re_match (run re_ok re_match hist) h path m = Some r ->
+    (exists e, In e (s_pre (config re_ok hist)) /\ flat_route e = r /\ flat_matches re_match e h path m = true) \/
+    (exists e, In e (a_rules (config re_ok hist) h) /\ rt_of e = r /\ rr re_match path m e <> None) \/
+    (exists e, In e (s_post (config re_ok hist)) /\ flat_route e = r /\ flat_matches re_match e h path m = true).
+Proof. exact answers_from_configuration. Qed.
+
+(** unrelated_add_remove_irrelevant.  Full statement (properties.jsonl): adding
+    or removing a frontend that does not match a request never changes that
+    request's route.  The faithful model refutes it ([unrelated_refuted]: a
+    frontend on the request's exact hostname whose path does not match hides
+    the wild-card hostname's frontends — known finding `unrelated-shadow`).
+    Proved: it holds whenever the operation does not create or delete the
+    leaf of the request's own hostname. *)
+Theorem unrelated_add_remove_irrelevant_partial :
+  forall re_ok re_match hist o h path m,
+    plain_history (hist ++ [o]) -> good_key h -> label_of h <> [STAR] ->
+    f_pos (op_front o) = Tree ->
+    ((f_host (op_front o) <> h /\ f_host (op_front o) <> wild_of h) \/
+     (forall p, parse_path re_ok (f_pkind (op_front o)) (f_pval (op_front o)) = Some p ->
+                rule_rank re_match p (f_method (op_front o)) path m = None)) ->
+    (f_host (op_front o) = h ->
+     is_nil (s_tree (config re_ok (hist ++ [o])) h) = is_nil (s_tree (config re_ok hist) h)) ->
+    route_lookup re_match (run re_ok re_match (hist ++ [o])) h path m
+    = route_lookup re_match (run re_ok re_match hist) h path m.
+Proof. exact unrelated_history. Qed.
+
+Theorem unrelated_refuted :
+  exists hist fr h path m,
+    plain_history (hist ++ [OAdd fr]) /\ f_pos fr = Tree /\
+    (forall p, parse_path (fun _ => true) (f_pkind fr) (f_pval fr) = Some p ->
+               rule_rank (fun _ _ => false) p (f_method fr) path m = None) /\
+    route_lookup (fun _ _ => false) (run (fun _ => true) (fun _ _ => false) (hist ++ [OAdd fr])) h path m
+    <> route_lookup (fun _ _ => false) (run (fun _ => true) (fun _ _ => false) hist) h path m.
+Proof. exact unrelated_refuted_lemma. Qed.
+
+(** with /regex/-segment hostnames the order of two adds decides the route *)
+Theorem regex_hosts_order_refuted :
+  exists f1 f2 h path m,
+    route_lookup (fun _ _ => true) (run (fun _ => true) (fun _ _ => true) [OAdd f1; OAdd f2]) h path m
+    <> route_lookup (fun _ _ => true) (run (fun _ => true) (fun _ _ => true) [OAdd f2; OAdd f1]) h path m.
+Proof. exact regex_hosts_order_refuted_lemma. Qed.
+
+(** ** non-vacuity *)
 Example selection_nonvacuous :
   let eq := (mkprule PEquals [47; 97]%N, None, mkroute (Some [1%N]) 0%Z false) in
   let pre := (mkprule PPrefix [47; 97]%N, Some [71]%N, mkroute (Some [2%N]) 0%Z false) in
   select_loop (fun _ _ => false) [eq; pre] [47; 97]%N [71]%N (0, 0, 0)%nat None = Some (mkroute (Some [1%N]) 0%Z false) /\
   select_loop (fun _ _ => false) [pre; eq] [47; 97]%N [71]%N (0, 0, 0)%nat None = Some (mkroute (Some [1%N]) 0%Z false).
 Proof. split; reflexivity. Qed.
+
+(** a plain history with an add, a wild-card, a removal; a request that is
+    routed through the wild-card leaf after the exact one is gone *)
+Example history_nonvacuous :
+  let f1 := w_front w_star_a_com [47]%N [48]%N in
+  let f2 := w_front w_x_a_com [47]%N [49]%N in
+  let hist := [OAdd f1; OAdd f2; ODel f2] in
+  plain_history hist /\ good_key w_x_a_com /\ label_of w_x_a_com <> [STAR] /\
+  route_lookup (fun _ _ => false) (run (fun _ => true) (fun _ _ => false) [OAdd f1; OAdd f2]) w_x_a_com [47]%N [71]%N
+  = Some (mkroute (Some [49]%N) 0%Z false) /\
+  route_lookup (fun _ _ => false) (run (fun _ => true) (fun _ _ => false) hist) w_x_a_com [47]%N [71]%N
+  = Some (mkroute (Some [48]%N) 0%Z false).
+Proof.
+  cbv zeta. split; [repeat constructor; cbn; discriminate|].
+  split; [repeat constructor; cbn; discriminate|].
+  split; [cbn; discriminate|]. split; vm_compute; reflexivity.
+Qed.
